@@ -1,6 +1,7 @@
 package main
 
 import (
+	"strings"
 	"fmt"
 
 	"verif/internal/dsl"
@@ -69,11 +70,11 @@ func c17Cases(tier string) []*space.Case {
 		{"qualified-configured", "github.com/acme/pkg/wrappers.Traits", "Traits"},
 		{"underscores-default", "my_pkg/sub_dir.Path_Value2", ""},
 	}
-	positions := []string{"P0", "P1nullable", "P2nonnull", "P3listval", "P3listptr", "P4mapval", "P4mapptr", "P6embedval", "P6embedptr"}
+	positions := []string{"P0", "P1nullable", "P2nonnull", "P3listval", "P3listptr", "P4mapval", "P4mapptr", "P6embedval", "P6embedptr", "P1nullable>P6embedval", "P3listval>P6embedptr"}
 	for si, sh := range shapes {
 		for ti, ty := range types {
 			for pi, pos := range positions {
-				if tier != "thorough" && (si+ti+pi)%2 == 1 && pos != "P0" && !(pos == "P6embedptr" && ti == 0) {
+				if tier != "thorough" && (si+ti+pi)%2 == 1 && pos != "P0" && !(pos == "P6embedptr" && ti == 0) && !(strings.Contains(pos, ">") && ti == 0 && si < 5) {
 					continue
 				}
 				fld := sh.mk()
@@ -84,6 +85,22 @@ func c17Cases(tier string) []*space.Case {
 				if pos == "P0" {
 					f = space.Close(&dsl.File{GettersOff: true, Messages: []*dsl.Message{{Name: "Root", Fields: []*dsl.Field{fld, other}}}})
 					path = "Root.X"
+				} else if strings.Contains(pos, ">") {
+					// Root -> Mid (nested / list element) -> embedded Inner: the promoted field is addressed as Mid.X
+					inner := &dsl.Message{Name: "Inner", Fields: []*dsl.Field{fld, other}}
+					emb := &dsl.Field{Name: "Inner", Num: 1, T: dsl.Msg, Ref: "Inner", Embed: true}
+					if strings.HasSuffix(pos, "P6embedval") {
+						emb.Nullable = dsl.B(false)
+					}
+					mid := &dsl.Message{Name: "Mid", Fields: []*dsl.Field{emb, {Name: "MidNote", Num: 2, T: dsl.String}}}
+					sub := &dsl.Field{Name: "Sub", Num: 1, T: dsl.Msg, Ref: "Mid"}
+					if strings.HasPrefix(pos, "P3listval") {
+						sub.Card = dsl.Repeated
+						sub.Nullable = dsl.B(false)
+					}
+					root := &dsl.Message{Name: "Root", Fields: []*dsl.Field{sub, {Name: "Side", Num: 2, T: dsl.String}}}
+					f = space.Close(&dsl.File{GettersOff: true, Messages: []*dsl.Message{root, mid, inner}})
+					path = "Mid.X"
 				} else {
 					inner := &dsl.Message{Name: "Inner", Fields: []*dsl.Field{fld, other}}
 					root := &dsl.Message{Name: "Root"}
